@@ -4,6 +4,7 @@ import (
 	"encoding/json"
 	"fmt"
 	"math/rand/v2"
+	"slices"
 	"strings"
 )
 
@@ -232,6 +233,17 @@ func NewDynUniverse(r *rand.Rand) *DynUniverse {
 		chain := append([]int{0}, mids...)
 		if last != 0 {
 			chain = append(chain, last)
+		}
+		if last != 0 && r.IntN(5) == 0 {
+			// RE-ENTRY: the resource holding the final $dynamicRef is entered, left for a resource not yet on the path, and
+			// entered again (dynamic scope [.., C, X, C]): what X declares counts, although C was there before it
+			for _, x := range r.Perm(n) {
+				if x != 0 && x != last && !slices.Contains(mids, x) {
+					chain = append(chain, x, last)
+					shape = append(shape, "reentry")
+					break
+				}
+			}
 		}
 		for _, k := range chain {
 			onChain[k] = true
